@@ -162,3 +162,4 @@ func VerifC07KeepSafe() {
 	verifAssert(len(again) == 1, "getall-emptied-both-generations")
 	verifCover("end")
 }
+
